@@ -276,8 +276,12 @@ func (s *Sched) Run() {
 			if w.state == 3 && w.curOp != nil && w.curOp.Eager && w.curOp.Guard != nil {
 				// eagerly started call blocked on the object's mutex: it proceeds exactly when that mutex is free at a
 				// scheduling point (everybody else is parked now, so it is the only taker)
-				if !w.curOp.Guard() && blockedInLibrary(w) {
-					continue
+				if !w.curOp.Guard() {
+					// mutex still taken: the call cannot have moved (inspecting all stacks at every step of a long read
+					// made such schedules ten times slower); a full look every 512 steps as a safety net
+					if step%512 != 0 || blockedInLibrary(w) {
+						continue
+					}
 				}
 				for i := 0; i < 25000 && blockedInLibrary(w); i++ {
 					time.Sleep(200 * time.Microsecond)
